@@ -30,7 +30,9 @@ def handle : List String → Option String
     let r := match locateFiles names with
       | some (g, s) => "ok:" ++ String.ofList g ++ ":" ++ String.ofList s
       | none => "err"
-    pure (expect r real)
+    let r := expect r real
+    if r != "ok" then pure r else
+    pure ((PyGen.locateFiles names real).getD "ok")
   -- every distance column j of query row q must be the real pairwise distance to the signature whose stored ID is genome j's ID
   -- gidsInDbOrder: ID code of each genome in db.genomes order; sids: ID codes in file order; table: real pairwise bits q x filepos
   | ["c04.dists", gids, sids, table, rows] => do
